@@ -12,8 +12,10 @@ import (
 	"errors"
 	"fmt"
 	"github.com/metal-toolbox/audito-maldito/internal/verif/mc"
+	"io"
 	"strconv"
 	"strings"
+	"syscall"
 	"testing"
 	"testing/synctest"
 	"time"
@@ -32,6 +34,23 @@ func init() {
 }
 
 var errInjected = errors.New("injected write failure")
+
+// dressedErr is the injected write failure dressed up as something a real sink would report: it still IS
+// errInjected, and it also matches (errors.Is) a well-known sentinel - a cancelled context of the sink's own, a
+// deadline, a closed pipe, end of file. Which error the output reports must not decide whether it is reported.
+type dressedErr struct{ as error }
+
+func (d dressedErr) Error() string { return "sink: " + d.as.Error() + " (" + errInjected.Error() + ")" }
+func (d dressedErr) Is(t error) bool {
+	return t == errInjected || t == d.as
+}
+func (d dressedErr) Unwrap() error { return d.as }
+
+// writeErrKinds are cycled through by the write-failure runs.
+var writeErrKinds = []error{errInjected, dressedErr{context.Canceled}, dressedErr{context.DeadlineExceeded}, dressedErr{io.ErrClosedPipe}, dressedErr{io.EOF}, dressedErr{syscall.EPIPE}}
+
+// writeErr is what a failing wrec returns.
+var writeErr error = errInjected
 
 // wrec is the io.Writer behind the production JSON event writer.
 type wrec struct {
@@ -52,7 +71,7 @@ func (w *wrec) Write(p []byte) (int, error) {
 		}
 	}
 	if w.failAt > 0 && w.n >= w.failAt {
-		return 0, errInjected
+		return 0, writeErr
 	}
 	w.writes = append(w.writes, string(p))
 	return len(p), nil
